@@ -229,6 +229,8 @@ def gen_spec(seed, **force):
     if spec["wrappers"] == "cutoff":
         spec["cutoff"] = force.get("cutoff") or rng.choice([15, 40, 90, 200, 450])
         spec["has_cutoff"] = True
+    if force.get("narrowing_boxes") and spec["wrappers"] in ("none", "counting", "stats") and spec["gsc"]["kind"] != "Precision":
+        spec["narrowing_boxes"] = True
     if force.get("per_level_problems") and spec["wrappers"] in ("none", "counting", "stats") and spec["gsc"]["kind"] != "Precision":
         spec["level_offsets"] = [0.0] + [rng.choice([0.25, -1.5, 3.0]) for _ in range(height - 1)]
     spec["cap_metaepochs"] = force.get("cap_metaepochs", 14)
@@ -300,7 +302,12 @@ def build(spec, objective_wrapper=None, session=None):
     for l in range(spec["height"]):
         raw_l = (lambda x, o=offs[l]: raw(x) + o) if offs else raw     # a different problem per level (multi-accuracy set-ups)
         f = objective_wrapper(l, raw_l) if objective_wrapper else raw_l
-        base = FunctionProblem(f, bounds, spec["maximize"], use_cache=True) if spec["wrappers"] == "cache" else FunctionProblem(f, bounds, spec["maximize"])
+        bounds_l = bounds
+        if spec.get("narrowing_boxes"):
+            # a narrower box on every deeper level (multi-fidelity set-ups): only used by C07's structure / seed monitors
+            mid, half = (bounds[:, 0] + bounds[:, 1]) / 2, (bounds[:, 1] - bounds[:, 0]) / 2 * (0.6 ** l)
+            bounds_l = np.stack([mid - half, mid + half], axis=1)
+        base = FunctionProblem(f, bounds_l, spec["maximize"], use_cache=True) if spec["wrappers"] == "cache" else FunctionProblem(f, bounds_l, spec["maximize"])
         p = base
         w = spec["wrappers"]
         if w == "counting":
